@@ -16,12 +16,34 @@ func (fc *FnCtx) assertInvs(st *State, n int, kind string, pos token.Pos) {
 		t := fc.contractExprAt(st, inv, pos)
 		fc.assert(st, fmt.Sprintf("%s#%d/%s", kind, n, clauseLabel(inv, i)), kind, t, pos, "invariant "+inv.Src)
 	}
+	if kind == "inv-step" {
+		for i, inv := range fc.loopPkgInvs[n] {
+			fc.assert(st, fmt.Sprintf("%s#%d/pkg-%s", kind, n, clauseLabel(inv, i)), kind, fc.invTerm(st, inv), pos, "package invariant "+inv.Src)
+		}
+	}
 }
 
 func (fc *FnCtx) assumeInvs(st *State, n int, pos token.Pos) {
 	for _, inv := range fc.contract.Invariants[n] {
 		fc.assume(st, fc.contractExprAt(st, inv, pos))
 	}
+	for _, inv := range fc.loopPkgInvs[n] {
+		fc.assume(st, fc.invTerm(st, inv))
+	}
+}
+
+// loopHavoc cuts the loop state at the head. Package invariants that read a location the loop modifies
+// are implicit loop invariants: asserted on entry here, assumed at the head, asserted on the back edge.
+func (fc *FnCtx) loopHavoc(st *State, n int, mod []any, pos token.Pos) {
+	if fc.loopPkgInvs == nil {
+		fc.loopPkgInvs = map[int][]*Clause{}
+	}
+	pinv := fc.invsTouchedBy(mod)
+	fc.loopPkgInvs[n] = pinv
+	for i, inv := range pinv {
+		fc.assert(st, fmt.Sprintf("inv-init#%d/pkg-%s", n, clauseLabel(inv, i)), "inv-init", fc.invTerm(st, inv), pos, "package invariant "+inv.Src)
+	}
+	fc.havocKeys(st, mod)
 }
 
 func (fc *FnCtx) forStmt(st *State, s *ast.ForStmt, label string) {
@@ -49,7 +71,7 @@ func (fc *FnCtx) forStmt(st *State, s *ast.ForStmt, label string) {
 			fc.become(d, m)
 		}
 	})
-	fc.havocKeys(st, mod)
+	fc.loopHavoc(st, n, mod, pos)
 	fc.assumeInvs(st, n, pos)
 	var cond Term = tTrue
 	if s.Cond != nil {
@@ -85,6 +107,14 @@ func (fc *FnCtx) rangeStmt(st *State, s *ast.RangeStmt, label string) {
 	x = fc.nameTerm("rangex", x)
 	pos := s.Body.Pos()
 	keyObj, valObj := fc.rangeVar(s.Key, s.Tok), fc.rangeVar(s.Value, s.Tok)
+	// a struct-valued iteration variable that the body never modifies need not be copied out of the container
+	valMutated := valObj != nil && fc.mutatedIn(valObj, s.Body)
+	if valObj != nil && !valMutated {
+		// the container's elements must not change under the un-copied alias either
+		if _, _, heapWrites := fc.assignedIn(s.Body); heapWrites {
+			valMutated = true
+		}
+	}
 
 	switch u := xt.Underlying().(type) {
 	case *types.Slice, *types.Array, *types.Basic:
@@ -134,7 +164,7 @@ func (fc *FnCtx) rangeStmt(st *State, s *ast.RangeStmt, label string) {
 				if et != nil {
 					el := fc.indexTerm(nil, x, idx, et, s.Pos(), "")
 					fc.allocated(b, el)
-					if isStructVal(et) {
+					if isStructVal(et) && valMutated {
 						el = fc.copyStruct(b, el, et)
 					}
 					b.vars[valObj] = el
@@ -150,7 +180,7 @@ func (fc *FnCtx) rangeStmt(st *State, s *ast.RangeStmt, label string) {
 			fc.runLoopAnchors(d, "loopbody", n, pos)
 			fc.block(d, s.Body.List)
 		})
-		fc.havocKeys(st, mod)
+		fc.loopHavoc(st, n, mod, pos)
 		idx := fc.freshSort("idx", SInt)
 		idx.T = types.Typ[types.Int]
 		st.vars[idxKey] = idx
@@ -207,7 +237,7 @@ func (fc *FnCtx) rangeStmt(st *State, s *ast.RangeStmt, label string) {
 			if valObj != nil {
 				v, _ := fc.mapRead(b, x, u, k)
 				fc.allocated(b, v)
-				if isStructVal(u.Elem()) {
+				if isStructVal(u.Elem()) && valMutated {
 					v = fc.copyStruct(b, v, u.Elem())
 				}
 				b.vars[valObj] = v
@@ -222,7 +252,7 @@ func (fc *FnCtx) rangeStmt(st *State, s *ast.RangeStmt, label string) {
 			fc.runLoopAnchors(d, "loopbody", n, pos)
 			fc.block(d, s.Body.List)
 		})
-		fc.havocKeys(st, mod)
+		fc.loopHavoc(st, n, mod, pos)
 		vis := fc.freshSort("visited", arraySort(ks, SBool))
 		st.vars[visKey] = vis
 		fc.assumeInvs(st, n, pos)
